@@ -1,4 +1,4 @@
-import PewProofs.Sync
+import PewProofs.SyncRender
 
 /-! # C08 — property theorems (statements only depend on `PewModel.Sync`) -/
 namespace Pew.Sync
@@ -304,21 +304,172 @@ theorem sync_samples_were_on (rows : List Row) (sel : Option (List Int)) (ts : L
     · simp [throw, throwThe, MonadExceptOf.throw] at h
   · simp [throw, throwThe, MonadExceptOf.throw] at h
 
-/-! ## stretch (NOT proved): end to end
+/-! ## end to end: `sync (render a)` is the ground-truth image
 
-The full statement
+`render` (the specification) writes the log, the sample times and the delay of a rastered acquisition:
+any number of logged patterns, each one of the eight scan patterns (`dir` × `serp`), any number and
+length of lines, laser-off gaps with or without samples before every line, stage-move rows, a lead-in
+and a tail, one sample per pixel somewhere strictly inside its dwell slot, and a signal that may start
+late or end early (`skip`, `take`).  `truthHyp` is the decidable domain on which the property's text
+defines the ground truth (see `PewModel.Sync`).  The theorems below compose the pieces above. -/
 
-    theorem sync_render (a : Acq) (sel) (h : truthHyp a sel = true) (hdisjoint : selected patterns do not overlap) :
-      ∀ rd, render a sel = some rd →
-        ∃ r, sync rd.rows sel rd.times rd.delay isnan false = .ok r ∧
-          r.origin = truthOrigin a sel ∧ ∀ row col, pixel r row col = truthImage a sel … row col
+/-- The spot size written in the log (`"a x b"`, or `"a"` for a circular spot, shortest decimal
+notation of a four-decimal value) parses back to the pattern's spot size in µm — all values. -/
+theorem render_spot_roundtrip (p : Pattern) :
+    spotSize p.spotStr =
+      some [(p.sxu : Rat) / 10000, ((if p.circular then p.sxu else p.syu : Nat) : Rat) / 10000] :=
+  spotSize_spotStr p
 
-composes the theorems above: `select_pattern` (the rendered log is a list of blocks), `origin_spec`
-and `pixel_of_aligned` (every rendered coordinate is the origin plus a multiple of the spot size),
-`sample_range` (mid-dwell samples of a line are exactly the samples in its On/Off interval, gap
-samples are in none), `image_of_lines` (the image is the union of the lines, each in travel order).
-The composition itself — threading the clock and the sample counter through `emitAll` — is not
-machine-checked; it is exercised by the correspondence check (`spec` = `truthImage`, `model` =
-`sync ∘ render`, both evaluated by the driver on every generated acquisition). -/
+def exSpotPat : Pattern :=
+  { seq := 1, dir := .lr, serp := false, X := 0, Y := 0, sxu := 11000, syu := 125000, circular := false,
+    npix := 1, dwell := 1, lines := [] }
+
+example : exSpotPat.spotStr = "1.1 x 12.5" := by decide +kernel
+
+/-- Selecting `sel` (`none` = everything) in the rendered log imports exactly the `On`/`Off` pairs of
+the lines of the selected patterns, in the order of recording — wherever the wanted patterns sit in the
+log, whatever stage-move rows surround the lines.  (Sequence numbers non-negative, non-decreasing.) -/
+theorem render_selects_lines (a : Acq) (sel : Option (List Int))
+    (hseq : ∀ p ∈ a.patterns, 0 ≤ p.seq)
+    (hinc : (a.patterns.map (·.seq)).Pairwise (· ≤ ·)) :
+    pairs (selectRows sel (emitAll a).rows) = some ((selLines a sel).map LineRec.pair) :=
+  rendered_pairs a sel hseq hinc
+
+/-- Laser events against samples, whatever the gaps: for every line of the acquisition (with `P` the
+number of samples recorded before its first pixel — gap samples, other lines, other patterns), the
+samples recorded before its `On` event are exactly the first `P` and those before its `Off` event
+exactly the first `P + npix`.  Laser-off samples therefore fall in no line's range. -/
+theorem render_event_index (a : Acq) (h0 : 0 < a.phase) (h1 : a.phase < 1) (hd : ∀ p ∈ a.patterns, 0 < p.dwell)
+    (lP : LineRec × Nat) (hlP : lP ∈ lineStarts 0 a.lines) (n : Nat) (s : Sample)
+    (hs : (emitAll a).samples[n]? = some s) :
+    (s.t < (lP.1.on : Rat) ↔ n < lP.2) ∧ (s.t < (lP.1.off : Rat) ↔ n < lP.2 + lP.1.p.npix) :=
+  all_times a h0 h1 hd lP hlP n s hs
+
+/-- The delay: `render` passes as delay the time between the first firing `f` (laser clock, ms) and the
+first sample of the signal — negative when the signal starts first.  With it, `sync`'s shifted sample
+times are the samples' laser-clock times counted from the first firing: a laser event at `t` picks up
+the signal recorded at `t − d` in the signal's own time. -/
+theorem render_delay (a : Acq) (sel : Option (List Int)) (rd : Rendered)
+    (h0 : 0 < a.phase) (h1 : a.phase < 1) (hd : ∀ p ∈ a.patterns, 0 < p.dwell) (hr : render a sel = some rd) :
+    ∃ (f : Int) (s0 : Sample), firstFiring a sel = some f ∧ (signal a).head? = some s0 ∧
+      rd.delay = (s0.t - (f : Rat)) / 1000 ∧
+      shiftTimes rd.times rd.delay = (signal a).map (fun x => (x.t - (f : Rat)) / 1000) := by
+  obtain ⟨f, s0, hf, hs0, rfl⟩ := render_some a sel rd hr
+  exact ⟨f, s0, hf, hs0, rfl, shifted_times a h0 h1 hd s0 hs0 f⟩
+
+/-- The four directions, unidirectional or serpentine (`lineEnds`/`stepCell` follow `lineDir`): for
+line `i` of a pattern that sits `cx`, `cy` whole spot sizes above the origin, the pixel indices of the
+logged `On`/`Off` coordinates give an axis-parallel segment of `npix` pixels whose travel step `j` is
+the ground-truth pixel of the stage cell under the laser at step `j`; all indices are ≥ 0. -/
+theorem render_line_cells (p : Pattern) (i : Nat) (ox oy : Int) (cx cy : Nat)
+    (hX : p.X = ox + ((cx * p.sxu : Nat) : Int)) (hY : p.Y = oy + ((cy * p.syu : Nat) : Int))
+    (hu : 0 < p.sxu) (hv : 0 < p.syu) (hn : 0 < p.npix) (g : Seg)
+    (hx0 : g.x0 = toPix ox ((p.sxu : Rat) / 10000) (p.lineEnds i).1.1)
+    (hx1 : g.x1 = toPix ox ((p.sxu : Rat) / 10000) (p.lineEnds i).2.1)
+    (hy0 : g.y0 = toPix oy ((p.syu : Rat) / 10000) (p.lineEnds i).1.2)
+    (hy1 : g.y1 = toPix oy ((p.syu : Rat) / 10000) (p.lineEnds i).2.2) :
+    (g.y0 = g.y1 ∨ g.x0 = g.x1) ∧ g.len = p.npix ∧
+    (∀ j, j < p.npix → g.cellAt j =
+      (((p.stepCell i j).2 - oy) / (p.syu : Int), ((p.stepCell i j).1 - ox) / (p.sxu : Int))) ∧
+    0 ≤ g.x0 ∧ 0 ≤ g.x1 ∧ 0 ≤ g.y0 ∧ 0 ≤ g.y1 :=
+  seg_geom p i ox oy cx cy hX hY hu hv hn g hx0 hx1 hy0 hy1
+
+/-- The ground truth line by line: pixel (r, c) holds sample `v` of the signal iff `v` is the sample of
+travel step `j` of an imported line and lies in the recorded window. -/
+theorem truth_by_lines (a : Acq) (sel : Option (List Int)) (hyp : truthHyp a sel = true) (r c : Int) (v : Nat) :
+    ∃ p0, (selectedPatterns a sel).head? = some p0 ∧
+      ((r, c, v) ∈ truthCells a sel ↔
+        ∃ lP ∈ lineStarts 0 a.lines, lP.1 ∈ selLines a sel ∧ ∃ j, j < lP.1.p.npix ∧ a.skip + v = lP.2 + j ∧
+          v < a.take ∧ (r, c) = truthPixel a sel p0 lP.1 j) := by
+  obtain ⟨p0, H⟩ := truthHyp_spec a sel hyp
+  exact ⟨p0, H.head, truthCells_iff a sel p0 H r c v⟩
+
+/-- **C08, main statement.**  For every rendered acquisition in the domain of the ground truth —
+one or several logged patterns, each any of the eight scan patterns, any number and length of lines,
+any stage origin and spot size (square, rectangular, circular notation), arbitrary laser-off gaps with
+or without samples, any selection `sel`, a signal that starts before or after the first firing (delay
+of either sign) and may end early — `sync` on the rendered log, times and delay succeeds, reports the
+log's origin and spot size, and its image is the ground-truth image: every pixel holds the sample
+recorded while the laser was over it, unvisited pixels are NaN (`none`), laser-off samples appear
+nowhere; and every visited pixel lies inside the returned canvas. -/
+theorem sync_render (a : Acq) (sel : Option (List Int)) (isnan : Nat → Bool) (rd : Rendered)
+    (hyp : truthHyp a sel = true) (hr : render a sel = some rd) :
+    ∃ r, sync rd.rows sel rd.times rd.delay isnan false = .ok r ∧
+      r.origin = truthOrigin a sel ∧
+      (∃ p0, (selectedPatterns a sel).head? = some p0 ∧ r.spot = [(p0.sxu : Rat) / 10000, (p0.syu : Rat) / 10000]) ∧
+      r.pixels = truthImage a sel r.height r.width ∧
+      ∀ e ∈ truthCells a sel, 0 ≤ e.1 ∧ e.1 < (r.height : Int) ∧ 0 ≤ e.2.1 ∧ e.2.1 < (r.width : Int) :=
+  sync_render_core a sel isnan rd hyp hr
+
+/-- The same with `squeeze=True`: the result is the ground-truth image on a canvas holding every
+visited pixel, with its all-NaN rows and columns removed (`isnan k`: sample `k` is NaN in every
+element). -/
+theorem sync_render_squeeze (a : Acq) (sel : Option (List Int)) (isnan : Nat → Bool) (rd : Rendered)
+    (hyp : truthHyp a sel = true) (hr : render a sel = some rd) :
+    ∃ (r : Result) (h w : Nat), sync rd.rows sel rd.times rd.delay isnan true = .ok r ∧
+      r.origin = truthOrigin a sel ∧
+      (∃ p0, (selectedPatterns a sel).head? = some p0 ∧ r.spot = [(p0.sxu : Rat) / 10000, (p0.syu : Rat) / 10000]) ∧
+      (∀ e ∈ truthCells a sel, 0 ≤ e.1 ∧ e.1 < (h : Int) ∧ 0 ≤ e.2.1 ∧ e.2.1 < (w : Int)) ∧
+      r.pixels = (squeezeImg isnan w (truthImage a sel h w)).1 ∧
+      r.width = (squeezeImg isnan w (truthImage a sel h w)).2 ∧ r.height = r.pixels.length :=
+  sync_render_squeeze_core a sel isnan rd hyp hr
+
+/-! ### non-vacuity: concrete acquisitions satisfy the hypotheses -/
+
+/-- a serpentine raster of two lines of three pixels (left-to-right, then right-to-left one row down),
+stage origin (80394.6132, 34824.0754) µm, spot 1.1 × 2.5 µm, 10 ms dwell; a 25 ms lead-in with two
+laser-off samples, a 7 ms gap with one laser-off sample between the lines, samples at 1/3 of their
+slots, a 5 ms tail with one sample -/
+def exSerp : Acq :=
+  { patterns := [{ seq := 2, dir := .lr, serp := true, X := 803946132, Y := 348240754, sxu := 11000, syu := 25000,
+                   circular := false, npix := 3, dwell := 10,
+                   lines := [{ gap := 25, gapSamples := 2, moves := 2 }, { gap := 7, gapSamples := 1, moves := 1 }] }]
+    phase := 1 / 3, tailGap := 5, tailSamples := 1, skip := 0, take := 10, t0 := 69 / 4 }
+
+example : truthHyp exSerp none = true := by decide +kernel
+example : (render exSerp none).isSome = true := by decide +kernel
+/-- its ground truth: samples 2,3,4 on row 0 left to right, samples 6,7,8 on row 1 right to left -/
+example : truthImage exSerp none 2 3 = [[some 2, some 3, some 4], [some 8, some 7, some 6]] := by decide +kernel
+
+/-- the same acquisition with the signal starting in the middle of the first line (a positive delay)
+and ending before the tail -/
+def exLate : Acq := { exSerp with skip := 3, take := 6 }
+
+example : truthHyp exLate (some [2]) = true := by decide +kernel
+example : (render exLate (some [2])).isSome = true := by decide +kernel
+example : truthImage exLate (some [2]) 2 3 = [[none, some 0, some 1], [some 5, some 4, some 3]] := by decide +kernel
+
+/-- two logged patterns (a bottom-to-top unidirectional one, numbered 1, and the serpentine one above,
+numbered 2); the second is selected -/
+def exTwo : Acq :=
+  { exSerp with
+    patterns := { seq := 1, dir := .bt, serp := false, X := 0, Y := -50000, sxu := 400000, syu := 400000,
+                  circular := true, npix := 2, dwell := 4,
+                  lines := [{ gap := 0, gapSamples := 0, moves := 0 }, { gap := 3, gapSamples := 0, moves := 2 }] }
+                :: exSerp.patterns
+    take := 14 }
+
+example : truthHyp exTwo (some [2]) = true := by decide +kernel
+example : truthHyp exTwo none = false := by decide +kernel   -- different spot sizes: no common pixel grid
+example : (render exTwo (some [2])).isSome = true := by decide +kernel
+example : truthImage exTwo (some [2]) 2 3 = [[some 6, some 7, some 8], [some 12, some 11, some 10]] := by
+  decide +kernel
+
+/-- the whole chain evaluated on `exSerp`: `sync` of the rendered log is the ground truth (the canvas
+has a fourth, unvisited column because the `Off` coordinate of a left-to-right line is pixel 3) -/
+def exRes (a : Acq) (sel : Option (List Int)) : Result :=
+  match (render a sel).map (fun rd => sync rd.rows sel rd.times rd.delay (fun _ => false) false) with
+  | some (.ok r) => r
+  | _ => { height := 0, width := 0, pixels := [], origin := (0, 0), spot := [] }
+
+example : (exRes exSerp none).pixels = [[some 2, some 3, some 4, none], [some 8, some 7, some 6, none]] := by
+  decide +kernel
+example : (exRes exSerp none).pixels = truthImage exSerp none 2 4 := by decide +kernel
+example : (exRes exSerp none).origin = (803946132, 348240754) ∧ (exRes exSerp none).spot = [11 / 10, 5 / 2] := by
+  decide +kernel
+example : (exRes exLate (some [2])).pixels = [[none, some 0, some 1, none], [some 5, some 4, some 3, none]] := by
+  decide +kernel
+example : (exRes exTwo (some [2])).pixels = [[some 6, some 7, some 8, none], [some 12, some 11, some 10, none]] := by
+  decide +kernel
 
 end Pew.Sync
